@@ -66,6 +66,26 @@ class Prov:
                             continue
                         for g in cands:
                             idx.setdefault(g, []).append((f, n, True))
+            # an assignment through a hand-written setter (`x.prop = value`) is a call of the setter with that value
+            setters = {}
+            for c in self.prog.all_classes():
+                for nm, g in c.setters.items():
+                    setters.setdefault(nm, []).append(g)
+            for f in self.prog.all_functions():
+                fc = FCtx(f)
+                for n in ast.walk(f.node):
+                    if isinstance(n, ast.Assign) and len(n.targets) == 1 and isinstance(n.targets[0], ast.Attribute) and n.targets[0].attr in setters:
+                        t = n.targets[0]
+                        cands = setters[t.attr]
+                        rt = self.T.expr(t.value, fc)
+                        typed = [a[1] for a in rt if a[0] == "inst"]
+                        if typed:
+                            cands = [g for g in cands if any(g.cls in self.prog.mro(k) or k in self.prog.mro(g.cls) for k in typed)]
+                        if len(cands) > 6:
+                            continue
+                        call = ast.copy_location(ast.Call(func=t, args=[n.value], keywords=[]), n)
+                        for g in cands:
+                            idx.setdefault(g, []).append((f, call, True))
             self._callsites = idx
         return self._callsites
 
